@@ -120,10 +120,15 @@ func (c *VirtualTable) BestIndex(input *sqlite.IndexInfoInput) (*sqlite.IndexInf
 		return nil, toSqlite(err)
 	}
 	used := make([]*sqlite.ConstraintUsage, len(indexIn))
+	argv := 0
 	for i := range indexOut.Used {
 		if indexOut.Used[i] {
+			// the values reach xFilter in ArgvIndex order, and SQLite insists
+			// on the indices being exactly 1..k: number the used constraints,
+			// not all of them
+			argv++
 			used[i] = &sqlite.ConstraintUsage{
-				ArgvIndex: i + 1,
+				ArgvIndex: argv,
 				//Omit: true, // no known cases where this doesn't work, but...
 			}
 		}
